@@ -67,6 +67,62 @@ Example ex_toxic :
   toxlog s = [0].
 Proof. vm_compute. auto 12. Qed.
 
+(* ---- overlapping digest calls ------------------------------------------ *)
+
+Definition cfg_free := mkConfig 8 9 2 true.
+
+(* thread 0 digests [0; 1] (both digesters raise); while it is inside the
+   digester of item 1 another thread runs a complete digest() on the empty
+   queue.  Each call reports its own items: ([], no errors) and ([0;1], errors
+   1 and 0); nothing is in flight at the end. *)
+Example ex_overlap_other_digest_in_between :
+  let cs := crun cfg_free [Atomic (IngestError Raises); Atomic (IngestError Raises);
+                           PassBegin 0 None; PassStep 0; Atomic (DigestOp None); PassStep 0] in
+  c_open cs = [] /\ inflight cs = [] /\
+  map (fun d => (ids (fst d), d_disposed (snd d), d_errors (snd d))) (c_done cs)
+    = [([0; 1], 0, [1; 0]); ([], 0, [])] /\
+  reported_ids cs = [1; 0] /\ ids (with_fate Reported (c_base cs)) = [1; 0] /\
+  n_ingested (c_base cs) = 2 /\ nfate Reported (c_base cs) = 2.
+Proof. vm_compute. auto 12. Qed.
+
+(* two calls in progress at once, an ingest in between, results returned in
+   the other order: thread 1's result lists item 2 only, thread 0's items 0
+   and 1 - every failure in exactly one result *)
+Example ex_overlap_two_calls_in_progress :
+  let mid := crun cfg_free [Atomic (IngestError Raises); Atomic (Ingest Misfolded 0 (Ok [4]));
+                            PassBegin 0 None; Atomic (Ingest Orphaned 0 Raises); PassBegin 1 None;
+                            PassStep 0] in
+  let cs := crun_from cfg_free mid [PassStep 1; PassStep 0] in
+  (* in the middle: item 0 reported by the call in progress, items 1 and 2 in flight *)
+  ids (inflight mid) = [2; 1] /\ reported_ids mid = [0] /\ List.length (c_open mid) = 2%nat /\
+  qlen (c_base mid) = 0 /\ n_ingested (c_base mid) = 3 /\ nfate Reported (c_base mid) = 1 /\
+  (* at the end *)
+  c_open cs = [] /\
+  map (fun d => (ids (fst d), d_disposed (snd d), d_errors (snd d))) (c_done cs)
+    = [([0; 1], 1, [0]); ([2], 0, [2])] /\
+  bin (c_base cs) = [(4, 1)] /\ n_digested (c_base cs) = 1.
+Proof. vm_compute. auto 20. Qed.
+
+(* a sensitive item handed to on_toxic by a digest call that overlaps an
+   ingest reaching the auto-digest threshold (whose own digest pass fails
+   silently): logged once, nothing recycled from it *)
+Example ex_overlap_toxic_and_auto_digest :
+  let cs := crun (mkConfig 8 2 2 true)
+                 [Atomic (IngestSensitive (Ok [])); PassBegin 0 None;
+                  Atomic (Ingest Misfolded 0 Raises); Atomic (Ingest Misfolded 0 (Ok [1]));
+                  PassStep 0] in
+  toxlog (c_base cs) = [0] /\ ids (queue (c_base cs)) = [2] /\
+  nfate AutoDiscarded (c_base cs) = 1 /\ nfate Digested (c_base cs) = 1 /\ bin (c_base cs) = [] /\
+  In (mkItem 0 Toxic 0 (Ok []), Digested) (g_fates (c_base cs)).
+Proof. vm_compute. auto 12. Qed.
+
+(* a label in use / a step of a pass that does not exist are not calls *)
+Example ex_overlap_bad_labels :
+  snd (cstep cfg_free cinit (PassStep 3)) = CBad /\
+  snd (cstep cfg_free (crun cfg_free [Atomic (IngestError Raises); PassBegin 0 None]) (PassBegin 0 None)) = CBad /\
+  snd (cstep cfg_free cinit (PassBegin 0 None)) = CRet (RDigest dres0).
+Proof. vm_compute. auto. Qed.
+
 (* ---- lock discipline -------------------------------------------------- *)
 
 (* the generated obligation, and the theorem instantiated on the class as it
